@@ -26,7 +26,13 @@ R-TABLE  slot maps: for every theta slot i, (inverse map o forward map)(theta)[i
 R-APPLY  `apply_body_theta_inertia` writes the mass segment to body.mass, first moment / mass to body.ipos and
          I_bar + m S(ipos) S(ipos) (S = skew) to body.fullinertia in MuJoCo's order M11 M22 M33 M12 M13 M23; this is the
          inverse of `pi_from_body`, which forms I_bar = fullinertia - m S(ipos) S(ipos); `apply_body_inertia` hands
-         `param.value` of a pseudo-inertia parameter (and of no other type) to it.
+         `param.value` of a pseudo-inertia parameter (and of no other type) to it.  When it returns,
+         spec.compiler.inertiafromgeom holds (stored unconditionally, directly or in a helper the interpreter follows,
+         as an integer or an mjtInertiaFromGeom member) a value for which the compiler's own condition for replacing a
+         body's inertial by its geoms' -- the `if (..) { InertiaFromGeom(); }` of src/user/user_objects.cc, evaluated
+         three-valued per enumerator of include/mujoco/mjspec.h with ipos defined -- is false: otherwise the applied
+         theta does not survive compilation.  Undecided branches that only store attributes are executed both ways and
+         their stores count as "on some paths only".
 R-BOUNDS for the pseudo-inertia type `body_inertia_param` constructs Parameter(nominal = theta, min_value = column 0,
          max_value = column 1 of the stacked [low, high] rows) and every row group is a non-decreasing function of its
          [low, high] pair (order domain UNIFORM / ORDERED / REVERSED over exp, log, positive / negative scaling, offsets),
@@ -62,7 +68,11 @@ MJ_FULLINERTIA_ORDER = [(0, 0), (1, 1), (2, 2), (0, 1), (0, 2), (1, 2)]
 
 FLOOR_SIGN = 15      # 6 off-triangle zeros, 4 positive diagonals, gram, mass-diagonal, 2 reversal conjugations, factor kind
 FLOOR_TABLE = 21     # 10 slot round trips, position coverage, 3 pi segments x 2 readers, 4 bound row groups
-FLOOR_APPLY = 11     # body.mass, body.ipos, parallel-axis term (apply and pi_from_body), 6 fullinertia entries, dispatch
+FLOOR_APPLY = 12     # body.mass, body.ipos, parallel-axis term (apply and pi_from_body), 6 fullinertia entries, dispatch,
+                     # compiler.inertiafromgeom
+CXX_BODY = "src/user/user_objects.cc"       # mjCBody::Compile: the branch that replaces the inertial by the geoms'
+CXX_ENUM = "include/mujoco/mjspec.h"        # mjtInertiaFromGeom
+IFG = "inertiafromgeom"
 FLOOR_BOUNDS = 10    # nominal, low/high columns, 4 row groups x (supplied pair, default pair)
 
 Z, P, A = "ZERO", "POS", "ANY"
@@ -330,6 +340,8 @@ class Ctx:
         self.unpack = {}                  # id(Val) -> number of names it was unpacked into
         self.inlined = set()
         self.np_hooks = {}                # numpy function name ("linalg.cholesky") -> callable, as hooks
+        self.cond = 0                     # > 0 while both branches of an undecided, effects-only `if` are executed
+        self.failed_inlines = []          # (function name, argument Vals, line): helpers that stayed opaque
 
 
 MAX_DEPTH = 8
@@ -452,9 +464,35 @@ class Interp:
             self.block(st.body)                  # `if ok: ... else: raise`
         elif self.only_raises(st.body) and st.orelse:
             self.block(st.orelse)                # `if bad: raise ... else: ...`
+        elif self.effects_only(st.body) and self.effects_only(st.orelse):
+            # an undecided test over branches that only store attributes / call helpers: both branches are executed and
+            # every attribute store in them is recorded as conditional (it happens on some paths only); the attribute's
+            # value afterwards is unknown.  Stores to matrices and containers are refused while this is active.
+            self.ctx.cond += 1
+            try:
+                self.block(st.body)
+                self.block(st.orelse)
+            finally:
+                self.ctx.cond -= 1
         else:
             raise AnalysisError(f"{FILE}:{st.lineno}: control flow in {self.fn.name} is not supported by the sign interpreter "
                                 f"(the test `{txt(st.test)[:60]}` is not decided by the bound constants)")
+
+    @staticmethod
+    def effects_only(stmts):
+        for st in stmts:
+            if isinstance(st, (ast.Pass, ast.Expr)):
+                continue
+            if isinstance(st, (ast.Assign, ast.AugAssign)):
+                tg = st.targets if isinstance(st, ast.Assign) else [st.target]
+                if all(isinstance(t, ast.Attribute) or (isinstance(t, ast.Subscript) and isinstance(t.value, ast.Attribute))
+                       for t in tg):
+                    continue
+                return False
+            if isinstance(st, ast.If) and Interp.effects_only(st.body) and Interp.effects_only(st.orelse):
+                continue
+            return False
+        return True
 
     def s_for(self, st):
         items = self.static_items(self.ev(st.iter))
@@ -538,13 +576,16 @@ class Interp:
             if isinstance(t.value, ast.Attribute):
                 obj = self.ev(t.value.value)
                 self.ctx.attr_stores.append({"obj": obj, "name": txt(t.value.value), "attr": t.value.attr, "index": sl,
-                                             "val": v, "line": line, "depth": self.depth, "aug": aug})
+                                             "val": v, "line": line, "depth": self.depth, "aug": aug,
+                                             "cond": self.ctx.cond > 0})
                 return
             if not isinstance(t.value, ast.Name):
                 self.ev(t.value)
                 return
             base = t.value.id
             m = self.lookup(base)
+            if self.ctx.cond and m.kind in ("mat", "seq", "dict"):
+                raise AnalysisError(f"{FILE}:{line}: store to `{base}` under a condition the bound constants do not decide")
             self.ctx.stores.append((base, sl, v, line, m))
             if m.kind == "dict" and m.of is not None:
                 k = self.ev(sl) if not isinstance(sl, ast.Slice) else Val()
@@ -590,9 +631,12 @@ class Interp:
 
     def attr_store(self, obj, name, attr, v, line, aug=None):
         self.ctx.attr_stores.append({"obj": obj, "name": name, "attr": attr, "index": None, "val": v, "line": line,
-                                     "depth": self.depth, "aug": aug})
+                                     "depth": self.depth, "aug": aug, "cond": self.ctx.cond > 0})
         if obj.fields is None:
             obj.fields = {}
+        if self.ctx.cond:
+            old = obj.fields.get(attr)
+            v = Val(deps=v.deps | (old.deps if old is not None else set()))        # either value, or the one before
         obj.fields[attr] = v
 
     def theta_slot(self, v, i, line):
@@ -1150,6 +1194,7 @@ class Interp:
                     # done to its arguments is unknown
                     del self.ctx.stores[mark[0]:]
                     del self.ctx.attr_stores[mark[1]:]
+                    self.ctx.failed_inlines.append((fname, allv, line))
                     self.havoc(allv, line, f"the call of {fname}, which the interpreter cannot execute")
                     return opaque
             b = self.builtin(fname, e, args, kwargs)
@@ -1157,7 +1202,9 @@ class Interp:
                 return b
             self.ctx.calls.append((fname, args, kwargs, line))
             self.havoc([v for v in allv if v.kind == "mat"], line, f"the call of {fname}")
-            r = Val("callres", deps=deps | {("call", fname)}, block=fname, of=args, line=line, null=False, pair=upair)
+            # a callable held in a local name (bound method, getattr result): its result depends on where it came from
+            r = Val("callres", deps=deps | target.deps | {("call", fname)}, block=fname, of=args, line=line, null=False,
+                    pair=upair if target.pair == U_ or not target.deps else UNK)
             r.kw = kwargs
             return r
         # numpy functions without a transfer function above (np.fill_diagonal, np.copyto, ...) and computed callees
@@ -1361,6 +1408,8 @@ def run(res, tier):
                    "np.linalg.cholesky returns the lower factor L with A = L L^T",
                    "MuJoCo's fullinertia attribute lists M(1,1), M(2,2), M(3,3), M(1,2), M(1,3), M(2,3) (doc/XMLreference.rst, "
                    "body/inertial/fullinertia)",
+                   "plain-text reading of the single `if (..) { InertiaFromGeom(); }` in src/user/user_objects.cc and of enum "
+                   "mjtInertiaFromGeom in include/mujoco/mjspec.h (fail-closed when either is not found as expected)",
                    "parallel-axis theorem: inertia about the body origin = inertia about the centre of mass - m S(c) S(c), "
                    "S = skew"]
     res.rule("R-SIGN", "the factor built from theta is triangular with sign-positive diagonal, J is its Gram matrix, "
@@ -1370,7 +1419,9 @@ def run(res, tier):
              floor=FLOOR_TABLE)
     res.rule("R-APPLY", "applying theta to a body writes the mass segment to body.mass, h/m to body.ipos, "
              "I_bar + m S(ipos) S(ipos) (the inverse of pi_from_body's I_bar = I - m S S) to body.fullinertia in MuJoCo's "
-             "order, and the pseudo-inertia parameter type is dispatched to it", floor=FLOOR_APPLY)
+             "order, the pseudo-inertia parameter type is dispatched to it, and compiler.inertiafromgeom is left at a value "
+             "under which the compiler keeps an explicit inertial (derived from mjCBody's InertiaFromGeom() condition)",
+             floor=FLOOR_APPLY)
     res.rule("R-BOUNDS", "the pseudo-inertia Parameter gets theta as nominal value and, as lower / upper bounds, the low / "
              "high columns of rows that are non-decreasing in their [low, high] bound pair (defaults included)",
              floor=FLOOR_BOUNDS)
@@ -1699,6 +1750,209 @@ def documented_fullinertia_order():
     return [(int(a) - 1, int(b) - 1) for a, b in pairs] if len(pairs) == 6 else None
 
 
+# ---- the compiler's own decision "replace the inertial of a body by what its geoms give" (read as text, fail-closed)
+
+def read_repo(rel):
+    try:
+        return open(os.path.join(cfront.REPO, rel), encoding="utf-8", errors="replace").read()
+    except OSError as e:
+        raise AnalysisError(f"{rel}: cannot be read ({e}); the admissible values of compiler.{IFG} are derived from it")
+
+
+def cxx_enum_values():
+    """{enumerator: int} of mjtInertiaFromGeom"""
+    text = read_repo(CXX_ENUM)
+    m = re.search(r"typedef\s+enum\s+mjtInertiaFromGeom\s*\{(.*?)\}\s*mjtInertiaFromGeom\s*;", text, re.S)
+    if not m:
+        raise AnalysisError(f"{CXX_ENUM}: enum mjtInertiaFromGeom not found")
+    body = re.sub(r"//[^\n]*", "", m.group(1))
+    out, nxt = {}, 0
+    for item in body.split(","):
+        item = item.strip()
+        if not item:
+            continue
+        mm = re.fullmatch(r"(\w+)(?:\s*=\s*(-?\d+))?", item)
+        if not mm:
+            raise AnalysisError(f"{CXX_ENUM}: enumerator `{item}` of mjtInertiaFromGeom is not understood")
+        if mm.group(2) is not None:
+            nxt = int(mm.group(2))
+        out[mm.group(1)] = nxt
+        nxt += 1
+    if len(out) < 2:
+        raise AnalysisError(f"{CXX_ENUM}: mjtInertiaFromGeom has fewer than two enumerators")
+    return out
+
+
+def cxx_inertia_from_geom_condition():
+    """text of the condition of the `if` whose body calls InertiaFromGeom() in the body compiler"""
+    text = re.sub(r"//[^\n]*", "", read_repo(CXX_BODY))
+    sites = [m.start() for m in re.finditer(r"\)\s*\{\s*InertiaFromGeom\s*\(\s*\)\s*;", text)]
+    if len(sites) != 1:
+        raise AnalysisError(f"{CXX_BODY}: expected one `if (..) {{ InertiaFromGeom(); }}`, found {len(sites)}")
+    end = sites[0]
+    depth, i = 0, end
+    while i >= 0:
+        if text[i] == ")":
+            depth += 1
+        elif text[i] == "(":
+            depth -= 1
+            if depth == 0:
+                break
+        i -= 1
+    if i < 0 or not re.search(r"\bif\s*$", text[:i]):
+        raise AnalysisError(f"{CXX_BODY}: the call of InertiaFromGeom() is not the body of a plain `if (..)`")
+    return text[i + 1:end]
+
+
+def kleene_eval(cond, atom):
+    """three-valued value (True / False / None) of a C condition over &&, ||, !, parentheses; atom(text) -> value"""
+    pos = [0]
+    n = len(cond)
+
+    def skip():
+        while pos[0] < n and cond[pos[0]].isspace():
+            pos[0] += 1
+
+    def p_or():
+        v = p_and()
+        skip()
+        while cond.startswith("||", pos[0]):
+            pos[0] += 2
+            w = p_and()
+            v = True if (v is True or w is True) else False if (v is False and w is False) else None
+            skip()
+        return v
+
+    def p_and():
+        v = p_not()
+        skip()
+        while cond.startswith("&&", pos[0]):
+            pos[0] += 2
+            w = p_not()
+            v = False if (v is False or w is False) else True if (v is True and w is True) else None
+            skip()
+        return v
+
+    def p_not():
+        skip()
+        if pos[0] < n and cond[pos[0]] == "!" and not cond.startswith("!=", pos[0]):
+            pos[0] += 1
+            v = p_not()
+            return None if v is None else not v
+        if pos[0] < n and cond[pos[0]] == "(":
+            pos[0] += 1
+            v = p_or()
+            skip()
+            if pos[0] >= n or cond[pos[0]] != ")":
+                raise AnalysisError(f"{CXX_BODY}: unbalanced condition `{cond.strip()[:120]}`")
+            pos[0] += 1
+            return v
+        start, depth = pos[0], 0
+        while pos[0] < n:
+            c = cond[pos[0]]
+            if depth == 0 and (cond.startswith("&&", pos[0]) or cond.startswith("||", pos[0]) or c == ")"):
+                break
+            depth += c in "([" 
+            depth -= c in ")]"
+            pos[0] += 1
+        text = re.sub(r"\s+", "", cond[start:pos[0]])
+        if not text:
+            raise AnalysisError(f"{CXX_BODY}: empty operand in `{cond.strip()[:120]}`")
+        return atom(text)
+    v = p_or()
+    skip()
+    if pos[0] != n:
+        raise AnalysisError(f"{CXX_BODY}: condition `{cond.strip()[:120]}` is not understood")
+    return v
+
+
+def geoms_override(enum, name, ipos_defined):
+    """does the compiler replace the inertial of a non-world body when compiler.inertiafromgeom == name?
+    True / False / None (depends on something the Python side does not fix)"""
+    cond = cxx_inertia_from_geom_condition()
+    seen = []
+
+    def atom(t):
+        m = re.fullmatch(r"(?:compiler(?:->|\.))?" + IFG + r"(==|!=)(\w+)", t)
+        if m:
+            seen.append(t)
+            if m.group(2) not in enum:
+                raise AnalysisError(f"{CXX_BODY}: `{t}` compares with something that is not an mjtInertiaFromGeom enumerator")
+            return (m.group(2) == name) == (m.group(1) == "==")
+        if t == "id>0":
+            return True                              # a body other than the world
+        if t == "mjuu_defined(ipos[0])":
+            return ipos_defined
+        return None
+    v = kleene_eval(cond, atom)
+    if not seen:
+        raise AnalysisError(f"{CXX_BODY}: the condition of InertiaFromGeom() no longer tests compiler->{IFG}: `{cond.strip()[:120]}`")
+    return v
+
+
+def inertiafromgeom_rule(res, mod, actx, body, ipos_written):
+    """necessary for "the applied theta survives compilation": when the applying function returns, spec.compiler.
+    inertiafromgeom holds a value under which the compiler does not replace the body's inertial by its geoms'"""
+    ap = mod.funcs[APPLY]
+    construct = f"{APPLY}:{IFG}"
+    enum = cxx_enum_values()
+    verdict = {nm: geoms_override(enum, nm, True if ipos_written else None) for nm in enum}
+    admissible = sorted(nm for nm, v in verdict.items() if v is False)
+    if not admissible or len(admissible) == len(enum):
+        raise AnalysisError(f"{CXX_BODY}: the InertiaFromGeom() condition admits {admissible} of {sorted(enum)}: not the decision "
+                            f"this rule was written for")
+    args = {d for d in body.deps if d[0] == "arg"}
+    stores = [s for s in actx.attr_stores if s["attr"] == IFG and s["index"] is None and
+              ("attr", "compiler") in s["obj"].deps and ({d for d in s["obj"].deps if d[0] == "arg"} & args or not args)]
+
+    def enumerator(v):
+        v = unwrap(v)
+        c = v.const
+        if isinstance(c, bool):
+            c = int(c)
+        if isinstance(c, int):
+            hit = [nm for nm, k in enum.items() if k == c]
+            return hit[0] if hit else ("?", c)
+        if isinstance(c, tuple) and len(c) == 2 and c[0] == "sym":
+            parts = c[1].split(".")
+            if parts[-1] == "value":
+                parts = parts[:-1]
+            return parts[-1] if parts[-1] in enum else None
+        return None                                   # int(Enum.member) / Enum.member.value are unwrapped above
+    state, where, why = "unset", ap.lineno, ""
+    for s in stores:
+        if s["aug"]:
+            raise AnalysisError(f"{FILE}:{s['line']}: augmented store to compiler.{IFG} is not interpreted")
+        nm = enumerator(s["val"])
+        if nm is None:
+            raise AnalysisError(f"{FILE}:{s['line']}: the value stored to compiler.{IFG} is not a constant the checker can name")
+        good = nm in admissible
+        if s["cond"]:
+            if not good:
+                state, where, why = "bad", s["line"], f"on some paths it is set to {nm if isinstance(nm, str) else nm[1]}"
+            elif state == "unset":
+                where, why = s["line"], "it is set on some paths only"
+        else:
+            state = "ok" if good else "bad"
+            where, why = s["line"], ("" if good else f"it is set to {nm if isinstance(nm, str) else nm[1]}")
+            last = nm
+    if state == "ok":
+        res.ok("R-APPLY", construct, {"file": FILE, "line": where, "stored": last, "admissible": admissible,
+                                      "compiler_condition": " ".join(cxx_inertia_from_geom_condition().split())})
+        return
+    if state == "unset" and not stores:
+        blind = [f for f in actx.failed_inlines if any(({d for d in v.deps if d[0] == "arg"} & args) for v in f[1])]
+        if blind:
+            raise AnalysisError(f"{FILE}:{blind[0][2]}: {APPLY} hands the spec to {blind[0][0]}, which the interpreter cannot "
+                                f"execute: whether compiler.{IFG} is set cannot be decided")
+    res.bad("R-APPLY", construct, FILE, where,
+            f"{APPLY}: when it returns, spec.compiler.{IFG} is not guaranteed to hold a value under which the explicit "
+            f"inertial wins ({' / '.join(admissible)}): " + (why or "it is never set") +
+            f". The compiler replaces the body's mass properties by its geoms' when "
+            f"`{' '.join(cxx_inertia_from_geom_condition().split())}` ({CXX_BODY}), so a spec with {IFG}=\"true\" compiles "
+            f"without the applied theta")
+
+
 def apply_rules(res, mod, actx, offs, total):
     ap = mod.funcs[APPLY]
     doc_order = documented_fullinertia_order()
@@ -1713,6 +1967,12 @@ def apply_rules(res, mod, actx, offs, total):
     if len(bodies) != 1:
         raise AnalysisError(f"{APPLY}: cannot identify the body whose fullinertia is written ({len(bodies)} candidates)")
     body = bodies[0]
+    hidden = [s for s in actx.attr_stores if s["obj"] is body and s["cond"]]
+    if hidden:
+        raise AnalysisError(f"{FILE}:{hidden[0]['line']}: {APPLY}: body.{hidden[0]['attr']} is written under a condition the "
+                            f"bound constants do not decide")
+    inertiafromgeom_rule(res, mod, actx, body,
+                         any(s["obj"] is body and s["attr"] == "ipos" and s["index"] is None for s in actx.attr_stores))
 
     def last_store(attr):
         hit = [s for s in actx.attr_stores if s["obj"] is body and s["attr"] == attr and s["index"] is None and not s["aug"]]
@@ -2092,6 +2352,7 @@ def sym_add(a, b, sign=1):   # noqa: F811
 
 def finish(res, mod):
     res.count("functions", 8)
+    res.count("cxx_conditions", 1)
     res.explanation = (
         "Abstract interpretation (ast only) of model_modifier.py: loops over literal tables are unrolled, helpers and "
         "closures are evaluated by binding their parameters, branches are taken when the bound constants decide them "
@@ -2102,7 +2363,9 @@ def finish(res, mod):
         "uses the matching factor. Symbolic exp/log/product normal form proves theta_from_pseudoinertia(U(theta))[i] == "
         "theta[i] per slot; pi segment offsets/lengths are inferred from shapes and compared with the readers; bound "
         "rows follow slot order. apply_body_theta_inertia stores mass, h/m and I_bar + m S S in MuJoCo's fullinertia "
-        "order, inverting pi_from_body's I_bar = I - m S S; the Parameter of the pseudo-inertia type gets theta and the "
+        "order, inverting pi_from_body's I_bar = I - m S S, and leaves compiler.inertiafromgeom at a value for which the "
+        "C++ body compiler's InertiaFromGeom() condition (read from src/user/user_objects.cc, enumerators from mjspec.h) is "
+        "false; the Parameter of the pseudo-inertia type gets theta and the "
         "low/high columns of rows that are monotone non-decreasing in their bound pairs.")
     res.not_decided = ("floating-point overflow/underflow of exp for extreme theta; that the compiled spec has the same "
                        "mass properties (fullinertia ordering is a cross-language contract, taken from the XML reference); "
@@ -2211,7 +2474,32 @@ MUTANTS = [
      "edits": [(FILE, "        theta_bounds[:, 0],\n        theta_bounds[:, 1],\n", "        theta_bounds[:, 1],\n        theta_bounds[:, 0],\n")]},
     {"id": "nominal-not-theta", "expect": ("R-BOUNDS", "body_inertia_param:nominal"),
      "edits": [(FILE, "        param_name,\n        theta_i_0,\n", "        param_name,\n        theta_bounds.mean(axis=1),\n")]},
+    {"id": "inertiafromgeom-store-removed", "expect": ("R-APPLY", "apply_body_theta_inertia:inertiafromgeom"),
+     "edits": [(FILE, "  spec.compiler.inertiafromgeom = 2\n", "")]},
+    {"id": "inertiafromgeom-true", "expect": ("R-APPLY", "apply_body_theta_inertia:inertiafromgeom"),
+     "edits": [(FILE, "  spec.compiler.inertiafromgeom = 2\n", "  spec.compiler.inertiafromgeom = 1\n")]},
+    {"id": "inertiafromgeom-true-enum", "expect": ("R-APPLY", "apply_body_theta_inertia:inertiafromgeom"),
+     "edits": [(FILE, "  spec.compiler.inertiafromgeom = 2\n",
+                "  spec.compiler.inertiafromgeom = mujoco.mjtInertiaFromGeom.mjINERTIAFROMGEOM_TRUE\n")]},
+    {"id": "inertiafromgeom-one-branch", "expect": ("R-APPLY", "apply_body_theta_inertia:inertiafromgeom"),
+     "edits": [(FILE, "  spec.compiler.inertiafromgeom = 2\n",
+                "  if not body.explicitinertial:\n    spec.compiler.inertiafromgeom = 2\n")]},
+    {"id": "inertiafromgeom-reset-after-apply", "expect": ("R-APPLY", "apply_body_theta_inertia:inertiafromgeom"),
+     "edits": [(FILE, "  body.iquat[:] = np.nan\n", "  body.iquat[:] = np.nan\n  spec.compiler.inertiafromgeom = True\n")]},
+    {"id": "apply-skips-infer", "expect": ("R-APPLY", "apply_body_theta_inertia:inertiafromgeom"),
+     "edits": [(FILE, "  pi = pi_from_theta(theta)\n\n  body = _infer_inertial(spec, body_name)\n",
+                "  pi = pi_from_theta(theta)\n\n  body = _get_obj_or_raise(spec, \"body\", body_name)\n  body.explicitinertial = True\n")]},
     # ---- controls: behaviour-preserving shapes
+    {"id": "control-inertiafromgeom-in-helper", "expect": None,
+     "edits": [(FILE, "  spec.compiler.inertiafromgeom = 2\n", "  _explicit_inertial_wins(spec)\n"),
+               (FILE, "def _infer_inertial(", "def _explicit_inertial_wins(spec):\n  compiler = spec.compiler\n"
+                                              "  setattr(compiler, \"inertiafromgeom\", 2)\n\n\ndef _infer_inertial(")]},
+    {"id": "control-inertiafromgeom-enum", "expect": None,
+     "edits": [(FILE, "  spec.compiler.inertiafromgeom = 2\n",
+                "  spec.compiler.inertiafromgeom = mujoco.mjtInertiaFromGeom.mjINERTIAFROMGEOM_AUTO\n")]},
+    {"id": "control-inertiafromgeom-after-writes", "expect": None,
+     "edits": [(FILE, "  body.iquat[:] = np.nan\n",
+                "  body.iquat[:] = np.nan\n  spec.compiler.inertiafromgeom = int(mujoco.mjtInertiaFromGeom.mjINERTIAFROMGEOM_AUTO.value)\n")]},
     {"id": "control-table-driven-fill", "expect": None, "edits": [(FILE, _FILL, _FILL_TABLE)]},
     {"id": "control-helper-and-comprehension", "expect": None, "edits": [(FILE, _EXTRACT, _EXTRACT_HELPER)]},
     {"id": "control-fullinertia-index-loop", "expect": None,
@@ -2234,4 +2522,4 @@ MUTANTS = [
 
 def selftest(res):
     from .. import r_misc
-    r_misc.run_mutants("C47", res, MUTANTS, parts=("python/mujoco",))
+    r_misc.run_mutants("C47", res, MUTANTS, parts=("python/mujoco", CXX_BODY, CXX_ENUM))
